@@ -26,6 +26,10 @@ SCENARIOS = [
     ("loop-index-mutation", "pub fn main(a: [u8; 3], i: usize) -> [u8; 3] { let mut r = a; for j in 0usize..2usize { if j == i { r[j] = r[j + 1usize]; } } r }"),
     ("dynamic-index-write", "pub fn main(a: [(u8, bool); 3], i: usize, v: u8) -> ([(u8, bool); 3], u8) { let mut r = a; r[i].0 = v; (r, a[0].0 ^ a[1].0 ^ a[2].0) }"),
     ("block-scope-ends", "pub fn main(a: u8, b: u8) -> (u8, u8) { let x = a; let mut y = b; { let x = b; y = x ^ 1u8; { let y = a; } } (x, y) }"),
+    ("short-circuit-and-assignment", "pub fn main(c: bool, a: u8) -> (bool, u8) { let mut x = a; let r = c && ({ x = 5u8; true }); (r, x) }"),
+    ("short-circuit-or-assignment", "pub fn main(c: bool, a: u8) -> (bool, u8) { let mut x = a; let r = c || ({ x = x ^ 9u8; a > 7u8 }); (r, x) }"),
+    ("short-circuit-nested-assignment", "pub fn main(c: bool, d: bool, a: u8) -> (bool, u8, u8) { let mut x = a; let mut y = 1u8; let r = (c && ({ x = 5u8; d })) || ({ y = x; c }); (r, x, y) }"),
+    ("short-circuit-branch-assignment", "pub fn main(c: bool, a: u8) -> u8 { let mut x = a; let r = c && (if a > 2u8 { x = 5u8; true } else { false }); x }"),
     ("short-circuit-no-effect", "fn side(mut q: u8) -> bool { q = q ^ 255u8; q > 9u8 }\npub fn main(c: bool, q: u8) -> (bool, u8) { let r = c && side(q); (r, q) }"),
 ]
 
